@@ -15,7 +15,7 @@ Inductive tag :=
 | W_sdt | W_sdtPr | W_sdtContent | W_smartTag | W_customXml | W_fldSimple
 | W_tbl | W_tblPr | W_tr | W_tc | W_tcPr
 | W_commentReference | W_commentRangeStart | W_footnoteReference
-| W_pict | W_drawing | W_txbxContent
+| W_pict | W_drawing | W_txbxContent | W_lastRenderedPageBreak
 | W_comments | W_comment | W_hdr | W_ftr | W_footnotes | W_footnote
 | MC_AlternateContent | MC_Choice | MC_Fallback
 | WPS_wsp | WPS_txbx | WP_anchor | A_graphic | A_graphicData | V_shape | V_textbox
@@ -69,6 +69,7 @@ Definition tag_parts (t : tag) : str * str :=
   | W_commentReference => (s "w", s "commentReference")
   | W_commentRangeStart => (s "w", s "commentRangeStart")
   | W_footnoteReference => (s "w", s "footnoteReference")
+  | W_lastRenderedPageBreak => (s "w", s "lastRenderedPageBreak")
   | W_pict => (s "w", s "pict") | W_drawing => (s "w", s "drawing") | W_txbxContent => (s "w", s "txbxContent")
   | W_comments => (s "w", s "comments") | W_comment => (s "w", s "comment")
   | W_hdr => (s "w", s "hdr") | W_ftr => (s "w", s "ftr")
